@@ -1,4 +1,5 @@
 import PbVerif.Lemmas.Perm
+import PbVerif.Gen.Registry
 /-! C02 — results do not depend on the order in which x (and z) are supplied.
 Property theorems only; helper lemmas live in `PbVerif.Lemmas.Perm`. -/
 namespace PbVerif.C02
@@ -78,5 +79,18 @@ theorem extendSortOrder_mid (σ : List Nat) (k i : Nat) (hi : i < σ.length) :
     (extendSortOrder σ 0 k).getD (k + i) 0 = σ.getD i 0 + k ∧
     (extendSortOrder σ 2 k).getD i 0 = σ.getD i 0 :=
   Lemmas.extendSortOrder_mid σ k i hi
+
+/-! ### table obligation over the regenerated method registry (Route A, `Gen/Registry`)
+`run1d_equivariant` / `run2d_equivariant` un-sort EVERY per-point array the core hands back. A real method inherits them
+only if every per-point entry of its parameter dictionary is declared in the wrapper's `sort_keys`. The registry is read
+from the imported package on every run (closure cells of `_register.inner` + one probe call per method). -/
+open PbVerif.Gen in
+def rowSorted (r : MethodRow) : Bool := r.skipSorting || r.perPoint.all fun k => r.sortKeys.contains k
+
+open PbVerif.Gen in
+/-- every method that lets the wrapper sort its inputs declares every per-point output for un-sorting; methods with
+`skip_sorting` (the optimizers, which delegate to wrapped methods) are covered by the correspondence only -/
+theorem registry_perpoint_keys_sorted :
+    registry.all rowSorted = true ∧ registryTranslated = true ∧ 90 ≤ registry.length := by decide +kernel
 
 end PbVerif.C02
